@@ -240,9 +240,10 @@ func docCase(ctx context.Context, out *vc.Out, r *vc.Rng, nodes []*vnode.Node, c
 // ------------------------------------------------------------------ (B) schema / collection identifiers
 
 type typeDef struct {
-	name   string
-	scalar []string // scalar field lines
-	refs   []string // names of referenced types (one relation field each)
+	name    string
+	scalar  []string // scalar field lines
+	refs    []string // names of referenced types (one relation field each)
+	ordered bool     // relation fields are named so that their name order is the order of refs
 }
 
 func (t typeDef) sdl(primary map[string]bool) string {
@@ -251,8 +252,11 @@ func (t typeDef) sdl(primary map[string]bool) string {
 	for _, s := range t.scalar {
 		sb.WriteString("\t" + s + "\n")
 	}
-	for _, ref := range t.refs {
+	for k, ref := range t.refs {
 		fname := strings.ToLower(ref) + "Of" + t.name
+		if t.ordered {
+			fname = fmt.Sprintf("r%d%s", k+1, strings.ToLower(ref))
+		}
 		key := t.name + ">" + ref
 		if ref == t.name {
 			sb.WriteString("\t" + fname + ": " + ref + "\n")
@@ -309,12 +313,48 @@ func genGraph(r *vc.Rng) []typeDef {
 	return ts
 }
 
+// genDigraph: 5-10 types with one-sided relations (a field on the referencing type only): dangling chains of
+// different lengths next to cycles of three or more types, several relations per type
+func genDigraph(r *vc.Rng, caseID int) []typeDef {
+	if caseID == 1 {
+		// a type with two dangling relation chains of different length followed by two relations into a cycle
+		mk := func(name string, refs ...string) typeDef {
+			return typeDef{name: name, scalar: []string{"name: String"}, refs: refs, ordered: true}
+		}
+		return []typeDef{mk("Ant", "Tick", "Toad", "Dog", "Bee"), mk("Tick", "Ulna"), mk("Ulna", "LeafA"), mk("LeafA"), mk("Toad", "LeafB"), mk("LeafB"),
+			mk("Bee", "Dog"), mk("Dog", "Cat"), mk("Cat", "Bee")}
+	}
+	n := 5 + r.Intn(6)
+	names := []string{"Ant", "Bee", "Cat", "Dog", "Eel", "Fox", "Gnu", "Hen", "Ibis", "Jay"}[:n]
+	ts := make([]typeDef, n)
+	edge := map[[2]int]bool{}
+	for i, nm := range names {
+		ts[i] = typeDef{name: nm, scalar: []string{"name: String"}, ordered: true}
+	}
+	for i := range ts {
+		d := r.Intn(5)
+		for k := 0; k < d; k++ {
+			j := r.Intn(n)
+			if j == i || edge[[2]int{i, j}] || edge[[2]int{j, i}] {
+				continue
+			}
+			edge[[2]int{i, j}] = true
+			ts[i].refs = append(ts[i].refs, names[j])
+		}
+	}
+	return ts
+}
+
 func schemaCase(ctx context.Context, out *vc.Out, r *vc.Rng, caseID int, tier string) {
 	ts := genGraph(r)
+	oneSided := caseID%2 == 1
+	if oneSided {
+		ts = genDigraph(r, caseID)
+	}
 	primary := map[string]bool{}
 	for _, t := range ts {
 		for _, ref := range t.refs {
-			if t.name < ref {
+			if t.name < ref && !oneSided {
 				primary[t.name+">"+ref] = true
 			}
 		}
@@ -385,6 +425,14 @@ func schemaCase(ctx context.Context, out *vc.Out, r *vc.Rng, caseID int, tier st
 		for _, ref := range ts[i].refs {
 			for j := range ts {
 				if ts[j].name == ref {
+					visit(j, c)
+				}
+			}
+		}
+		// (relations may be one-sided: a component is connected through either direction)
+		for j := range ts {
+			for _, ref := range ts[j].refs {
+				if ref == ts[i].name {
 					visit(j, c)
 				}
 			}
